@@ -123,8 +123,12 @@ DoClone(opname, s, d, newk) ==
        ELSE aborted' = aborted /\ hnd' = Mint(hnd, d, newk, b)
     /\ UNCHANGED frames
 
+\* handle types with a Clone impl (which adds an owner): a UniqueArc can not be duplicated, a raw pointer is not a handle
+CloneKinds == {"Arc", "Off", "Uni", "Dyn", "TArc", "TOff"}
+\* ... and the ones that are Copy (they own nothing): ArcBorrow
+CopyKinds == {"Bor", "BorDyn"}
 Clone(s, d) ==
-    /\ On("Clone") /\ hnd[s].k \in {"Arc", "Off", "Uni", "Dyn", "TArc", "TOff"}
+    /\ On("Clone") /\ hnd[s].k \in CloneKinds
     /\ DoClone("Clone", s, d, CloneTo(hnd[s].k))
     /\ Rec(<<"Clone", s, d, "", 0>>)
 
